@@ -681,6 +681,14 @@ func failedUseFlood(t *testing.T, n int) {
 	err = guarded("failed-use flood", func() error {
 		missing, _ := sql.Open("updog", "file:"+filepath.Join(dir, "does-not-exist.updog"))
 		broken, _ := sql.Open("updog", "file:"+bad+"?preload=true")
+		cutPath := filepath.Join(dir, "cut.updog")
+		if raw, rerr := os.ReadFile(good); rerr != nil || len(raw) < 5*4096 {
+			panic("INFRA: cannot cut the good file short")
+		} else if werr := os.WriteFile(cutPath, raw[:len(raw)/2/4096*4096], 0o644); werr != nil {
+			panic("INFRA: " + werr.Error())
+		}
+		cut, _ := sql.Open("updog", "file:"+cutPath)
+		defer cut.Close()
 		defer missing.Close()
 		defer broken.Close()
 		use := func(db *sql.DB, i int) error {
@@ -704,25 +712,30 @@ func failedUseFlood(t *testing.T, n int) {
 		for i := 0; i < 20; i++ {
 			use(missing, i)
 			use(broken, i)
+			use(cut, i)
 		}
 		runtime.GC()
 		fd0, g0 := fix.FDCount(0), runtime.NumGoroutine()
 		failed := 0
+		gcOn := fix.NoGC()
+		defer gcOn()
 		for i := 0; i < n; i++ {
-			for _, db := range []*sql.DB{missing, broken} {
+			for _, db := range []*sql.DB{missing, broken, cut} {
 				err := use(db, i)
 				if fix.IsPanic(err) {
 					return err
 				}
 				if err == nil {
-					return fmt.Errorf("use %d of a handle whose file is missing or has an undecodable bitmap (preload) returned rows", i)
+					return fmt.Errorf("use %d of a handle whose file is missing, has an undecodable bitmap (preload) or ends before its last pages returned rows", i)
 				}
 				failed++
 			}
 		}
 		time.Sleep(50 * time.Millisecond)
+		fd1 := fix.FDCount(0) // before any collection: finalizers would close what was left open
+		gcOn()
 		runtime.GC()
-		fd1, g1 := fix.FDCount(0), runtime.NumGoroutine()
+		g1 := runtime.NumGoroutine()
 		evid.Case(true, fmt.Sprintf("failed-use flood: %d failing uses; descriptors %d -> %d, goroutines %d -> %d", failed, fd0, fd1, g0, g1), "failed-use-flood")
 		if fd0 >= 0 && fd1 > fd0+8 {
 			return fmt.Errorf("after %d failing uses of handles the process holds %d open descriptors, %d before", failed, fd1, fd0)
